@@ -2,6 +2,7 @@
 PROP = dict(
         module='kernel', pkg='multiboot', pkgname='multiboot', harness=['multiboot/c10_test.go'],
         n=dict(quick=1500, thorough=25000),
+        anchors='C10.json', expr_imports=['Firefly.Gen.C10'],
         nontrivial=r'^(M \d+ \| (done|stop) [1-9]|F \| ok \d|C \| ok [1-9]|E \| done [1-9]|T \d+ \| ok \d)',
         rule='one evaluation = one call of the real findTagByType / VisitMemRegions / GetFramebufferInfo(+field reads) / '
              'GetBootCmdLine / VisitElfSections (or a dump of the block after the calls) on a generated multiboot block placed '
@@ -20,10 +21,13 @@ PROP = dict(
                      'single-threaded use; cmdLineKV cache reset between cases (the cache itself is not part of the property)'],
         level_text='Lean theorems for every well-formed block (any tag order, duplicates, unknown tags, odd sizes/padding, entry size >= 24, '
                    'any entry count, all 32-bit types): first_tag_wins(+_order), absent_is_empty, roundtrip_memmap (with type normalisation), '
-                   'early_stop, types_normalised, roundtrip_framebuffer, roundtrip_elf, roundtrip_cmdline_partial, reads_in_bounds; the model is '
-                   'tied to the Go code by regenerated constants/struct offsets and a differential run on generated blocks behind guard pages.',
-        level_note='Partial: the command-line round-trip is proved for ASCII white space and words without the bytes C2/E1/E2/E3 '
-                   '(cmdPlain); Unicode white space is covered by model/spec/code comparison only. Trusted: Lean kernel (+ propext, '
+                   'early_stop, types_normalised, writes_confined, roundtrip_framebuffer, roundtrip_elf, roundtrip_cmdline (all white space strings.Fields '
+                   'recognises, words of arbitrary bytes), reads_in_bounds; the model is '
+                   'tied to the Go code by regenerated constants/struct offsets, by the pointer/size/stride/type-test expressions regenerated from '
+                   'the source (tools/exprgen, Tie/C10.lean) and by a differential run on generated blocks behind guard pages.',
+        level_note='All clauses of the statement are proved for the model on every well-formed block. Trusted: Lean kernel (+ propext, '
                    'Classical.choice, Quot.sound), the theorem statements and the spec (encode/wf/exp*), the harness (correspondence is '
-                   'differential testing on generated inputs, not a proof about the Go code), strings.Fields/Split modelled.',
+                   'differential testing on generated inputs, not a proof about the Go code), strings.Fields/Split modelled (byte-level model of '
+                   'UTF-8 decoding + unicode.IsSpace, compared with the real functions on valid and invalid UTF-8). exprgen renders int32(x) '
+                   'as a zero-extended truncation, so the scan-step tie lemma carries the hypothesis (size+7) mod 2^32 < 2^31.',
 )
